@@ -28,11 +28,12 @@ type Plan struct {
 }
 
 type SchedSpec struct {
-	After    []uint16 `json:"after"`
-	To       []uint16 `json:"to"`
-	Hot      []uint16 `json:"hot,omitempty"`
-	HotSites []int    `json:"hot_sites,omitempty"`
-	First    int      `json:"first"`
+	After     []uint16 `json:"after"`
+	To        []uint16 `json:"to"`
+	Hot       []uint16 `json:"hot,omitempty"`
+	HotSites  []int    `json:"hot_sites,omitempty"`
+	HotReader bool     `json:"hot_reader,omitempty"`
+	First     int      `json:"first"`
 }
 
 type PoolSpec struct {
@@ -89,6 +90,7 @@ type Call struct {
 	Str2     string    `json:"str2,omitempty"`
 	N        int       `json:"n,omitempty"`
 	Scribble bool      `json:"scribble,omitempty"` // harness overwrites the returned value after use
+	Repeat   int       `json:"repeat,omitempty"`   // the call is executed this many times in a row (history amplifier)
 }
 
 type AdvOp struct {
@@ -158,7 +160,7 @@ func genLenAround(t *rapid.T, label string, lo, hi int, marks ...int) int {
 
 func genField(t *rapid.T, label string, n int, nShared int) Field {
 	f := Field{Data: rapid.SliceOfN(rapid.Byte(), n, n).Draw(t, label)}
-	f.Shape = weighted(t, label+"Shape", 3, 3, 3, 1)
+	f.Shape = weighted(t, label+"Shape", 3, 3, 3, 1, 1) // 4: back to back with the next field in one array
 	if f.Shape == 1 {
 		f.Spare = rapid.SampledFrom([]int{1, 7, 8, 120, 128, 129, 300}).Draw(t, label+"Spare")
 	}
@@ -307,6 +309,7 @@ func genCall(t *rapid.T, prop string, nSharedP, nSharedF int) Call {
 		c.Op = rapid.SampledFrom(opsC11).Draw(t, "op")
 	}
 	c.Scribble = prop == "C12" && rapid.Bool().Draw(t, "scribble")
+
 	switch c.Op {
 	case "GenerateHOTP", "GenerateTOTP", "ValidateHOTP", "ValidateTOTP":
 		c.Secret = genSecret(t)
@@ -368,7 +371,7 @@ func genCall(t *rapid.T, prop string, nSharedP, nSharedF int) Call {
 		c.Str2 = rapid.SampledFrom([]string{"alice@example.com", "bob", "", "x y"}).Draw(t, "account")
 		c.Secret = genSecret(t)
 		c.Param = genParam(t)
-		c.N = rapid.IntRange(0, 6).Draw(t, "urlVariant")
+		c.N = rapid.IntRange(0, 11).Draw(t, "urlVariant")
 	case "RandomSecret":
 		c.Param.Algo = rapid.SampledFrom([]int{0, 1, 2, 0, 1, 2, 3, 4, 128, 255}).Draw(t, "algo")
 	case "ParseDecimalToBigEndian8", "ParseDecimal64BigEndian", "ParseDecimalChallengeRFC6287":
@@ -418,6 +421,17 @@ func genSched(t *rapid.T, nTasks int) SchedSpec {
 		}
 	}
 	s.First = rapid.IntRange(0, nTasks).Draw(t, "first")
+	// the scheduling point behind every chunk the random reader delivers can be hot too
+	if weighted(t, "hotReader?", 2, 1) == 1 {
+		s.HotReader = true
+		if nTasks > 16 {
+			// park every caller right after its read: as many calls in flight as there are tasks
+			s.Hot = s.Hot[:0]
+			for i := 0; i < nTasks+8; i++ {
+				s.Hot = append(s.Hot, uint16(1+rapid.IntRange(0, 3).Draw(t, "hotRd")))
+			}
+		}
+	}
 	return s
 }
 
@@ -425,12 +439,20 @@ func GenPlan(t *rapid.T, prop string) *Plan {
 	p := &Plan{Prop: prop}
 	p.RefAfter = rapid.Bool().Draw(t, "refAfter")
 	maxTasks := rapid.SampledFrom([]int{2, 3, 4, 8, 16, 64}).Draw(t, "maxTasks")
-	if prop == "C08" && maxTasks > 16 {
-		maxTasks = 16
+	if prop == "C08" {
+		// mostly 1..16 callers; some runs have more callers in flight than any
+		// fixed-size ring of scratch slots a changed tree might use
+		maxTasks = rapid.SampledFrom([]int{2, 4, 8, 16, 16, 16, 70, 140, 300}).Draw(t, "maxTasksC08")
 	}
 	nt := rapid.IntRange(1, maxTasks).Draw(t, "nTasks")
+	if prop == "C08" && maxTasks > 16 {
+		nt = rapid.IntRange(maxTasks/2, maxTasks).Draw(t, "nTasksMany")
+	}
 	maxCalls := 40
 	longHistory := false
+	if nt > 16 {
+		maxCalls = 2
+	}
 	if nt > 8 {
 		maxCalls = 6
 	} else if nt > 3 {
@@ -469,6 +491,14 @@ func GenPlan(t *rapid.T, prop string) *Plan {
 			calls = append(calls, genCall(t, prop, nsp, nsf))
 		}
 		p.Tasks = append(p.Tasks, calls)
+	}
+	if prop != "C08" && nt <= 4 && weighted(t, "repeat?", 30, 1) == 1 {
+		// state that builds up over thousands of calls (rings of reusable buffers,
+		// wrapping counters, caches that evict): one call of one task is executed
+		// thousands of times in a row - at most one such call per plan
+		ti := rapid.IntRange(0, nt-1).Draw(t, "repeatTask")
+		ci := rapid.IntRange(0, len(p.Tasks[ti])-1).Draw(t, "repeatCall")
+		p.Tasks[ti][ci].Repeat = rapid.SampledFrom([]int{300, 1100, 4200, 9000}).Draw(t, "repeat")
 	}
 	if weighted(t, "warm?", 2, 1) == 1 {
 		nw := rapid.IntRange(1, 10).Draw(t, "nWarm")
